@@ -170,10 +170,12 @@ fn main() {
     std::fs::write(&evidence_path, serde_json::to_string_pretty(&evidence).unwrap()).expect("write evidence");
 
     let machinery = sink.machinery_errors();
-    if !machinery.is_empty() {
-        for m in &machinery {
-            eprintln!("MACHINERY: {m}");
-        }
+    for m in &machinery {
+        eprintln!("MACHINERY: {m}");
+    }
+    if !machinery.is_empty() && violations == 0 {
+        // A machinery error alone is never a verdict. With replayable violations next to it (each
+        // has its own replay file, re-executed twice by --replay) the violations are reported.
         exit(2);
     }
     let cov = &evidence["coverage"];
